@@ -9,6 +9,7 @@ import (
 	"fmt"
 	"os"
 	"sort"
+	"strings"
 	"sync"
 	"time"
 
@@ -274,6 +275,14 @@ func main() {
 			if g.Intn(12) == 0 {
 				o.Id = "dangling"
 			}
+			if g.Intn(4) == 0 {
+				// an update in place of a deletion: re-adding an existing id must delete nothing
+				for _, b := range build {
+					if b.Id == o.Id && (b.Op == "addFact" || b.Op == "addRule") {
+						o = b
+					}
+				}
+			}
 			dels = append(dels, o)
 		}
 		for _, kind := range drv.Kinds {
@@ -294,7 +303,7 @@ func main() {
 				if !w.apply(r, o) {
 					break
 				}
-				w.observe(r, before-len(w.m.Items) >= 2)
+				w.observe(r, before-len(w.m.Items) >= 2 || (strings.HasPrefix(o.Op, "add") && before > 2))
 			}
 		}
 	}
